@@ -143,7 +143,7 @@ CHECKS = {
                 "connections in flight, connections ending unconsumed, port reuse) plus a directed family of "
                 "port-reuse runs (leftover then diverted / unlisted / agent / fallback connect, LRU eviction of a "
                 "leftover) are validated by TLC against the property-level trace spec."
-                " The agent's side of the policy runs on the REAL kernel map: the tree's eBPF object is compiled with clang -target bpf, loaded with BpfObject::from_ebpf_file (nothing attached, nothing pinned) and installed in RedirectorSharedState as start_internal does; every instruction history printed by PolicyMapGen.tla (every sequence of 5 update_*_redirect_policy calls; every sequence of secure-channel state changes in the key keeper's call order wireserver, imds, hostga with hostga following wireserver; a sample on a fresh object each, the rest chained) goes through the real async update_*_redirect_policy, policy_map is read back with raw bpf(2) after every call and compared with the set PolicyMap.tla lists (S->I); TLC judges the rows against PolicyMapTrace.tla (keys = exactly the (ip, port, TCP) of the endpoints whose last instruction was 'on', values = the proxy listener). Start-up: Attach.tla models Redirector::start_impl/start_internal (a fresh object per attempt, AttachPublish(ok), AttachDivert(ok), DetachAll on failure, MAX_RETRIES, Close) with client connects between any two steps; TLC checks NeverDivertUnpublished (the diverting hook is never in force without the publishing hook) and that the design with the two attaches swapped violates it; the REAL Redirector::start and Redirector::attach_bpf_prog run on the tree's eBPF object under strace in a private mount namespace whose only cgroup is a private, empty one, and the attach/detach rows derived from the system-call log are judged by AttachTrace.tla.",
+                " The agent's side of the policy runs on the REAL kernel map: the tree's eBPF object is compiled with clang -target bpf, loaded with BpfObject::from_ebpf_file (nothing attached, nothing pinned) and installed in RedirectorSharedState as start_internal does; every instruction history printed by PolicyMapGen.tla (every sequence of 5 update_*_redirect_policy calls; every sequence of secure-channel state changes in the key keeper's call order wireserver, imds, hostga with hostga following wireserver; a sample on a fresh object each, the rest chained) goes through the real async update_*_redirect_policy, policy_map is read back with raw bpf(2) after every call and compared with the set PolicyMap.tla lists (S->I); TLC judges the rows against PolicyMapTrace.tla (keys = exactly the (ip, port, TCP) of the endpoints whose last instruction was 'on', values = the proxy listener). Start-up: Attach.tla models Redirector::start_impl/start_internal (a fresh object per attempt, AttachPublish(ok), AttachDivert(ok), DetachAll on failure, MAX_RETRIES, Close) with client connects between any two steps; TLC checks NeverDivertUnpublished (the diverting hook is never in force without the publishing hook) and that the design with the two attaches swapped violates it; the REAL Redirector::start and Redirector::attach_bpf_prog run on the tree's eBPF object under strace in a private mount namespace whose only cgroup is a private, empty one, and the attach/detach rows derived from the system-call log are judged by AttachTrace.tla. Scope of the diverting hook: CgroupScope.tla (a cgroup/connect4 program sees the cgroup it is attached to and its descendants; Resolve takes one entry of the namespace's cgroup2 mount table) is model-checked for EveryVisibleConnectDiverted / ScopeCoversMounts over every mount table of up to three mounts with the system mount first; the variant that takes the last mount must violate it; every such mount table is set up for real (private cgroups bind-mounted in a private mount namespace) and the real get_cgroup2_mount_path (+ configured fallback, as attach_bpf_prog composes them) resolves the attach directory; CgroupScopeTrace.tla judges that the target covers every mounted sub-tree.",
         "note": "BPF helper/map semantics are a user-space model after bpf-helpers(7) (strict LRU); verifier/JIT and a "
                 "live kernel attach are not involved (CONFIG_KPROBES is off in the sandbox). x86-64 only. The real-map part binds the "
                 "user-space half only (map updates and reads on live BPF hash maps); no program is attached.",
